@@ -1,6 +1,7 @@
 package loom
 
 import "sync/atomic"
+import "unsafe"
 
 /********************************************************************
 created:    2020-01-31
@@ -26,9 +27,11 @@ func (my *Flag) AddFlag(flag int64) {
 	var addr = (*int64)(my)
 
 	for {
+		verifYield(11, unsafe.Pointer(addr))
 		var last = atomic.LoadInt64(addr)
 		var next = last | flag
 
+		verifYield(12, unsafe.Pointer(addr))
 		if atomic.CompareAndSwapInt64(addr, last, next) {
 			break
 		}
@@ -39,9 +42,11 @@ func (my *Flag) RemoveFlag(flag int64) {
 	var addr = (*int64)(my)
 
 	for {
+		verifYield(11, unsafe.Pointer(addr))
 		var last = atomic.LoadInt64(addr)
 		var next = last & ^flag
 
+		verifYield(12, unsafe.Pointer(addr))
 		if atomic.CompareAndSwapInt64(addr, last, next) {
 			break
 		}
